@@ -319,7 +319,10 @@ func (g *Gen) lblList() string {
 // matchers but different ranges meet in one query
 func (g *Gen) twins(c *Case) (string, string) {
 	core := g.selectorCore(g.metric())
-	mods := []string{"", " @ start()", " @ end()", " offset " + durStr(g.pickI(5000, 60000, g.step)), fmt.Sprintf(" @ %d.000", c.Start/1000)}
+	mods := []string{"", " @ start()", " @ end()", " offset " + durStr(g.pickI(5000, 60000, g.step)), fmt.Sprintf(" @ %d.000", c.Start/1000),
+		// pinned and shifted at once: the plan-time rewrite of the offset must survive every optimizer
+		fmt.Sprintf(" @ %d.000 offset %s", (c.Start+g.pickI(0, 30000, 90000))/1000, durStr(g.pickI(5000, 30000, 60000))),
+		fmt.Sprintf(" offset -%s @ %d.000", durStr(g.pickI(5000, 30000)), c.Start/1000)}
 	a := mods[g.r.Intn(len(mods))]
 	b := mods[g.r.Intn(len(mods))]
 	wrap := func(x string) string {
@@ -503,6 +506,12 @@ func (g *Gen) vectorExpr(c *Case, d int) string {
 	case 9, 10:
 		return g.funcExpr(c, d)
 	default:
+		if g.chance(0.3) {
+			// stacked unary operators and parentheses: every level is an operator of its own
+			// (each minus drops the metric name once more, none may be "simplified" away)
+			x := g.vectorExpr(c, d-1)
+			return fmt.Sprintf(g.pick("-(-%s)", "- -%s", "-(+(-%s))", "+(-(%s))", "-((-(%s)))", "-(-(-%s))", "+(+%s)"), x)
+		}
 		if g.chance(0.5) {
 			return "-" + g.vectorExpr(c, d-1)
 		}
